@@ -122,6 +122,13 @@ class TakeN:
         self.it, self.n = it, n
 
 
+class PeekIter:
+    __slots__ = ("it", "buf")
+
+    def __init__(self, it):
+        self.it, self.buf = it, None  # buf: None = nothing peeked, else the Option already pulled
+
+
 class ChainIter:
     __slots__ = ("a", "b")
 
@@ -263,6 +270,11 @@ def iter_next(I, it, depth):
         if it.n <= 0:
             return NONE()
         it.n -= 1
+        return iter_next(I, it.it, depth)
+    if isinstance(it, PeekIter):
+        if it.buf is not None:
+            r, it.buf = it.buf, None
+            return r
         return iter_next(I, it.it, depth)
     if isinstance(it, ChainIter):
         if it.a is not None:
@@ -1829,6 +1841,29 @@ def call(I, fr, name, fname, k, args, depth):
         return err(i)
     if name.endswith("Iterator::take") or name.endswith("Iterator>::take"):
         return TakeN(_hold(args[0]), args[1])
+    if name.endswith("Iterator::peekable") or name.endswith("Iterator>::peekable"):
+        return PeekIter(_hold(args[0]))
+    if "iter::Peekable::<I>::" in name or "iter::adapters::peekable::Peekable::<I>::" in name:
+        meth_ = name.rsplit("::", 1)[-1]
+        pk_ = deref(I, args[0]) if isinstance(args[0], Ref) else args[0]
+        if not isinstance(pk_, PeekIter):
+            raise Unsupported("Peekable method on %r" % (pk_,))
+        if meth_ in ("peek", "peek_mut"):
+            if pk_.buf is None:
+                pk_.buf = iter_next(I, pk_.it, depth)
+            if pk_.buf.vi == 0:
+                return NONE()
+            return some(Ref(_HeapFrame(pk_.buf.fields), 0, [("i", 0)]))
+        if meth_ == "next_if_eq":
+            if pk_.buf is None:
+                pk_.buf = iter_next(I, pk_.it, depth)
+            if pk_.buf.vi == 1 and deref(I, pk_.buf.fields[0]) == deref(I, args[1]) and isinstance(deref(I, args[1]), int):
+                r_, pk_.buf = pk_.buf, None
+                return r_
+            if pk_.buf.vi == 1 and not isinstance(deref(I, args[1]), int):
+                raise Unsupported("Peekable::next_if_eq on non-integers")
+            return NONE()
+        raise Unsupported("Peekable::%s" % meth_)
     if name.endswith("Iterator::chain") or name.endswith("Iterator>::chain"):
         o_ = args[1]
         if isinstance(o_, list):
